@@ -279,6 +279,11 @@ func CheckC01(st Step, srv *Server) vev.Outcome {
 				if r.Modified == nil || *r.Modified != head.Header.Get("Last-Modified") {
 					return dev("propfind-lastmodified", "%q getlastmodified %v but HEAD says %q", r.Path, deref(r.Modified), head.Header.Get("Last-Modified"))
 				}
+				// never predicted (it depends on the host's mime.types), but a type the server reports in a listing
+				// is the type it serves the file with
+				if r.Type != nil && *r.Type != head.Header.Get("Content-Type") {
+					return dev("propfind-contenttype", "%q getcontenttype %v but HEAD says %q", r.Path, deref(r.Type), head.Header.Get("Content-Type"))
+				}
 			}
 		}
 	}
